@@ -96,4 +96,10 @@ Section Interp.
     end.
 
   Definition imports_first (fuel : nat) (m : nat) : bool := match import_mod fuel [] m with Some _ => true | None => false end.
+  (* after `import first` in a fresh interpreter, module m has been executed to the end (so the classes it registers are in the registry) *)
+  Definition loaded_after (fuel : nat) (first m : nat) : bool :=
+    match import_mod fuel [] first with
+    | Some s => match get_status s m with Some (Loaded _) => true | _ => false end
+    | None => false
+    end.
 End Interp.
